@@ -196,6 +196,62 @@ func genHistory(r *vgen.Rand, sleeping bool, maxSleeps int) []op {
 	return ops
 }
 
+// genShaped draws a sleeping history around a fixed skeleton: revocation A (interface
+// X) expires at base+3 and B (interface Y) at base+8; after the first sleep (T = 5) a
+// clean-up runs while A is expired and B is live; after the second sleep (T = 10) B
+// is expired as well and interface Y is looked up and offered older, unexpired
+// revocations. Random operations on the third interface and lookups fill the gaps.
+func genShaped(r *vgen.Rand) []op {
+	perm := []int{0, 1, 2}
+	vgen.Shuffle(r, perm)
+	kA, kB, kC := perm[0], perm[1], perm[2]
+	link := func() uint16 { return uint16(r.Intn(5)) }
+	filler := func(n int) []op {
+		var out []op
+		for i := 0; i < n; i++ {
+			switch r.Intn(4) {
+			case 0:
+				o := genInsert(r, true)
+				o.Key = kC
+				out = append(out, o)
+			case 1:
+				out = append(out, op{Kind: opAll})
+			default:
+				out = append(out, op{Kind: opGet, Key: r.Intn(len(pool))})
+			}
+		}
+		return out
+	}
+	tsB := vgen.Pick(r, int64(-20), -10, -5, 0, 1)
+	ops := []op{
+		{Kind: opInsert, Key: kA, TsRel: vgen.Pick(r, int64(-60), -10, 0), ExpRel: 3, Link: link()},
+		{Kind: opInsert, Key: kB, TsRel: tsB, ExpRel: 8, Link: link()},
+	}
+	if r.Bool() {
+		ops[0], ops[1] = ops[1], ops[0]
+	}
+	ops = append(ops, filler(r.Intn(4))...)
+	ops = append(ops, op{Kind: opSleep}) // T = 5: A expired, B live
+	ops = append(ops, filler(r.Intn(3))...)
+	ops = append(ops, op{Kind: opDel})
+	ops = append(ops, filler(r.Intn(3))...)
+	ops = append(ops, op{Kind: opSleep}) // T = 10: B expired
+	tail := []op{
+		{Kind: opGet, Key: kB},
+		{Kind: opInsert, Key: kB, TsRel: tsB - vgen.Pick(r, int64(0), 40, 80), ExpRel: vgen.Pick(r, int64(13), 18, 1003), Link: link()},
+		{Kind: opGet, Key: kB},
+		{Kind: opAll},
+		{Kind: opDel},
+		{Kind: opGet, Key: kA},
+	}
+	if r.Bool() {
+		tail[0], tail[1] = tail[1], tail[0]
+	}
+	ops = append(ops, tail...)
+	ops = append(ops, filler(r.Intn(4))...)
+	return ops
+}
+
 // execute runs one history on a fresh cache. base is the base second; for a
 // sleeping history the caller has aligned the clock to just after base.
 // ok=false: a timing check failed, the observations must not be used.
@@ -437,7 +493,7 @@ func main() {
 	run.Rule = "histories of 8-30 operations (55% Insert, 23% Get, 8% DeleteExpired, 6% GetAll, sleeps) on a fresh " +
 		"memrevcache over 3 interfaces (2 ASes); timestamps from a pool of 10 values (ties), expirations " +
 		"already-expired / short / far-future with >= 2 s margin to every instant an operation can run, 4% " +
-		"boundary values of the 32-bit fields, 12% very long-lived revocations (TTL 2^32-1, timestamp+TTL = 2^32-1 / 2^32 / 2^32+1 / wrapping to just before now, TTL ~2.6e9..4e9 s) mixed with clean-ups, lookups and older/newer inserts; sleeping histories cross expirations with real 5 s sleeps; " +
+		"boundary values of the 32-bit fields, 12% very long-lived revocations (TTL 2^32-1, timestamp+TTL = 2^32-1 / 2^32 / 2^32+1 / wrapping to just before now, TTL ~2.6e9..4e9 s) mixed with clean-ups, lookups and older/newer inserts; sleeping histories cross expirations with real 5 s sleeps, half of them shaped as: A and B on different interfaces expiring at +3 / +8 s, clean-up at +5 s, lookups and older inserts on B's interface at +10 s; " +
 		"non-trivial = the history contains a rejected insertion or a replacement"
 	rng := vgen.NewRand(run.Seed)
 
@@ -454,7 +510,13 @@ func main() {
 		hs = append(hs, &hist{ops: genHistory(rng.Fork(uint64(i)), false, 0)})
 	}
 	for i := 0; i < nSleep; i++ {
-		hs = append(hs, &hist{sleeping: true, ops: genHistory(rng.Fork(uint64(1000000+i)), true, maxSleeps)})
+		r := rng.Fork(uint64(1000000 + i))
+		if i%2 == 0 {
+			// clean-up between two expirations on different interfaces, then time passes again
+			hs = append(hs, &hist{sleeping: true, ops: genShaped(r)})
+		} else {
+			hs = append(hs, &hist{sleeping: true, ops: genHistory(r, true, maxSleeps)})
+		}
 	}
 
 	// flat histories: sequential, each within its base second
